@@ -89,7 +89,7 @@ structure Result where
   params : List Param        -- lcl_params in list order
   tail : List Str            -- lcl_tail_argv ([] = NULL, lcl_tail_argc = its length)
   outOfFuel : Bool := false
-  doubleFree : Bool := false -- the error path freed `clp_argv` explicitly and again in the destructor
+  doubleFree : Bool := false -- `clp_argv` was freed explicitly and again by the destructor
 deriving Repr, DecidableEq
 
 /-- the `for (j = 0; j < clo_num_params; ++j, ++i)` loop: `some (params, rest')` or, on error,
@@ -109,12 +109,13 @@ def specialAt : Nat → List Str → Option Nat
   | _ + 1, [] => none
   | n + 1, a :: rest => if a = special then some 0 else (specialAt n rest).map (· + 1)
 
-/-- The special-token error path runs `parsec_argv_free(param->clp_argv)` and then
-    `PARSEC_OBJ_RELEASE(param)`, whose destructor frees `clp_argv` again: a double free as soon
-    as one parameter had been saved (`j ≥ 1`). -/
-def doubleFrees (n : Nat) (l : List Str) : Bool :=
+/-- The special-token error path runs `parsec_argv_free(param->clp_argv)` (if one parameter had been
+    saved, `j ≥ 1`) and then `PARSEC_OBJ_RELEASE(param)`, whose destructor frees `clp_argv` if it
+    is not NULL.  `nulled` = the pointer is reset to NULL after the explicit free (repair 16257ae;
+    `false` = the code as it was before, kept to state the finding). -/
+def doubleFrees (nulled : Bool) (n : Nat) (l : List Str) : Bool :=
   match specialAt n l with
-  | some (_ + 1) => true
+  | some (_ + 1) => !nulled
   | _ => false
 
 /-- end of the loop through `error:` / unknown token / `--`: everything from position i on goes
@@ -130,24 +131,24 @@ deriving Repr, DecidableEq
 
 /-- an option (position `k`) was recognised for the token at the head of `rest'`: suck down its
     parameters, record the instance, continue behind them -/
-def handle (pre : List Str) (params : List Param) (k : Nat) (o : Opt) (rest' : List Str) : Step :=
+def handle (nulled : Bool) (pre : List Str) (params : List Param) (k : Nat) (o : Opt) (rest' : List Str) : Step :=
   match takeParams o.nparams.toNat rest'.tail with
   | (some (ps, r), _) => .next (pre ++ rest'.head?.toList ++ ps) r (params ++ [(k, ps)])
   | (none, left) => .done { finish true pre rest' params left with
-                             doubleFree := doubleFrees o.nparams.toNat rest'.tail }
+                             doubleFree := doubleFrees nulled o.nparams.toNat rest'.tail }
 
 /-- the body of the `for` loop for the token `tok = lcl_argv[i]` followed by `more` -/
-def step (opts : List Opt) (ign : Bool) (pre : List Str) (tok : Str) (more : List Str)
+def step (nulled : Bool) (opts : List Opt) (ign : Bool) (pre : List Str) (tok : Str) (more : List Str)
     (params : List Param) : Step :=
   if tok = [dash, dash] then .done (finish false pre (tok :: more) params more)
   else if tok.head? ≠ some dash then .done (finish (!ign) pre (tok :: more) params (tok :: more))
   else if tok.take 2 = [dash, dash] then
     match find opts (tok.drop 2) with
     | none => .done (finish true pre (tok :: more) params (tok :: more))
-    | some (k, o) => handle pre params k o (tok :: more)
+    | some (k, o) => handle nulled pre params k o (tok :: more)
   else
     match find opts (tok.drop 1) with
-    | some (k, o) => handle pre params k o (tok :: more)
+    | some (k, o) => handle nulled pre params k o (tok :: more)
     | none =>
       match splitShorts opts ign (tok.drop 1) more with
       | none => .done (finish true pre (tok :: more) params (tok :: more))
@@ -156,16 +157,16 @@ def step (opts : List Opt) (ign : Bool) (pre : List Str) (tok : Str) (more : Lis
         | none => .done (finish true pre (tok :: more) params (tok :: more))
         | some (k, o) =>
           -- parsec_argv_delete(&lcl_argc, &lcl_argv, i, 1 + used); parsec_argv_insert(&lcl_argv, i, shortsv)
-          handle pre params k o (sv ++ more.drop used)
+          handle nulled pre params k o (sv ++ more.drop used)
 
-def parseLoop (opts : List Opt) (ign : Bool) :
+def parseLoop (nulled : Bool) (opts : List Opt) (ign : Bool) :
     Nat → List Str → List Str → List Param → Result
   | 0, pre, rest, params => { finish true pre rest params [] with outOfFuel := true }
   | _ + 1, pre, [], params => finish false pre [] params []
   | fuel + 1, pre, tok :: more, params =>
-    match step opts ign pre tok more params with
+    match step nulled opts ign pre tok more params with
     | .done r => r
-    | .next pre' rest' params' => parseLoop opts ign fuel pre' rest' params'
+    | .next pre' rest' params' => parseLoop nulled opts ign fuel pre' rest' params'
 
 /-- iterations never exceed the number of bytes + tokens of the command line -/
 def fuelFor (argv : List Str) : Nat := (argv.map (fun s => s.length + 1)).sum + 1
@@ -175,7 +176,13 @@ def fuelFor (argv : List Str) : Nat := (argv.map (fun s => s.length + 1)).sum + 
 def parse (opts : List Opt) (ign : Bool) (argv : List Str) : Result :=
   match argv with
   | [] => { rc := SUCCESS, argv := [], params := [], tail := [] }
-  | prog :: rest => parseLoop opts ign (fuelFor rest) [prog] rest []
+  | prog :: rest => parseLoop true opts ign (fuelFor rest) [prog] rest []
+
+/-- the parser as it was before 16257ae (no reset of `clp_argv` after the explicit free) -/
+def parseBuggy (opts : List Opt) (ign : Bool) (argv : List Str) : Result :=
+  match argv with
+  | [] => { rc := SUCCESS, argv := [], params := [], tail := [] }
+  | prog :: rest => parseLoop false opts ign (fuelFor rest) [prog] rest []
 
 /-- `parsec_cmd_line_get_ninsts` -/
 def ninsts (opts : List Opt) (r : Result) (name : Str) : Nat :=
